@@ -67,6 +67,7 @@ type jIT struct {
 	Reserved int      `json:"reserved_capacity,omitempty"`
 	Unavail  bool     `json:"one_offering_unavailable,omitempty"`
 	Huge     bool     `json:"hugepages,omitempty"`
+	HugeBig  bool     `json:"hugepages_exceed_memory,omitempty"`
 	// offerings that override the type's capacity and/or overhead (computeAllocatable groups)
 	Overrides []jOverride `json:"override_offerings,omitempty"`
 }
@@ -105,6 +106,7 @@ type jPod struct {
 	State     string `json:"state,omitempty"` // bound pods: "" running | succeeded | terminating ; pending pods: "" | preempting
 	Owner     string `json:"owner,omitempty"` // "" replicaset | none | node (mirror pod)
 	Ephemeral bool   `json:"ephemeral_volume,omitempty"`
+	Extras    bool   `json:"emptydir_and_plain_container_port,omitempty"`
 }
 
 type jNode struct {
@@ -154,11 +156,12 @@ type jWorld struct {
 	Pending    []jPod  `json:"pending"`
 	DaemonSets []jPod  `json:"daemonsets,omitempty"`
 	PDB        bool    `json:"blocking_pdb,omitempty"`
-	DRA        bool    `json:"dra_enabled,omitempty"`              // IgnoreDRARequests=false
-	MaxITs     int     `json:"max_instance_types,omitempty"`       // scheduling.MaxInstanceTypes for this world (0 = default 600)
-	Buffer     int     `json:"capacity_buffer_replicas,omitempty"` // CapacityBuffer feature gate + one ready buffer
-	BatchMax   int     `json:"batch_max_duration_s,omitempty"`     // 0 = default; sets the nomination window max(2*d, 10s)
-	CPUReq     int     `json:"cpu_requests_m,omitempty"`           // 0 = default; number of scheduler workers of a provisioning pass
+	DRA        bool    `json:"dra_enabled,omitempty"`                     // IgnoreDRARequests=false
+	MaxITs     int     `json:"max_instance_types,omitempty"`              // scheduling.MaxInstanceTypes for this world (0 = default 600)
+	Buffer     int     `json:"capacity_buffer_replicas,omitempty"`        // CapacityBuffer feature gate + one ready buffer
+	BatchMax   int     `json:"batch_max_duration_s,omitempty"`            // 0 = default; sets the nomination window max(2*d, 10s)
+	CPUReq     int     `json:"cpu_requests_m,omitempty"`                  // 0 = default; number of scheduler workers of a provisioning pass
+	DefaultTSC string  `json:"scheduler_config_default_spread,omitempty"` // "" | ScheduleAnyway | DoNotSchedule (+ a Service selecting the pods)
 	Ops        []jOp   `json:"ops"`
 }
 
@@ -171,9 +174,10 @@ func genPod(r *kit.Rand, name string, bound bool) jPod {
 	if r.Chance(1, 3) {
 		p.HostPort = kit.Pick(r, []int{8080, 8080, 8081, 9090})
 	}
-	if r.Chance(1, 4) {
-		p.PVC = kit.Pick(r, []string{"pvc-a", "pvc-b", "pvc-c", "pvc-bound", "pvc-nosc", "pvc-emptysc"})
+	if r.Chance(1, 3) {
+		p.PVC = kit.Pick(r, []string{"pvc-a", "pvc-a", "pvc-b", "pvc-b", "pvc-c", "pvc-bound", "pvc-nosc", "pvc-emptysc", "pvc-intree"})
 	}
+	p.Extras = r.Chance(1, 6)
 	if p.HostPort != 0 && r.Chance(1, 3) {
 		p.HostIP = kit.Pick(r, []string{"10.0.0.1", "10.0.0.2"})
 	}
@@ -182,6 +186,9 @@ func genPod(r *kit.Rand, name string, bound bool) jPod {
 	}
 	if r.Chance(1, 10) {
 		p.DRA = kit.Pick(r, []string{"claim", "claim", "missing-claim"})
+	}
+	if bound && r.Chance(1, 5) {
+		p.DRA = kit.Pick(r, []string{"allocated-shared", "allocated-shared", "allocated"}) // devices already held by a running pod
 	}
 	if r.Chance(1, 5) {
 		p.Anti = true
@@ -312,6 +319,7 @@ func genWorld(r *kit.Rand, thorough bool) jWorld {
 		}
 		it.Unavail = r.Chance(1, 6)
 		it.Huge = r.Chance(1, 8)
+		it.HugeBig = it.Huge && r.Chance(1, 3)
 		if r.Chance(2, 5) {
 			for k := r.Range(1, 2); k > 0; k-- {
 				o := jOverride{Zone: fmt.Sprintf("test-zone-%d", 3+k), Available: r.Chance(3, 4)}
@@ -349,8 +357,8 @@ func genWorld(r *kit.Rand, thorough bool) jWorld {
 		n.Deleting = n.Managed && r.Chance(1, 10)
 		n.Nominated = r.Chance(1, 8)
 		n.Tainted = r.Chance(1, 8)
-		if r.Chance(1, 4) {
-			n.CSILimit = r.Range(1, 3)
+		if r.Chance(1, 3) {
+			n.CSILimit = kit.Pick(r, []int{1, 1, 2, 3})
 		}
 		n.LateMark = !n.Marked && r.Chance(1, 12)
 		if n.Managed && n.HasNode && r.Chance(1, 8) {
@@ -407,6 +415,9 @@ func genWorld(r *kit.Rand, thorough bool) jWorld {
 	}
 	if r.Chance(1, 3) {
 		w.CPUReq = kit.Pick(r, []int{4000, 16000})
+	}
+	if r.Chance(1, 4) {
+		w.DefaultTSC = kit.Pick(r, []string{"ScheduleAnyway", "DoNotSchedule"})
 	}
 	nOps := r.Range(1, lo.Ternary(thorough, 8, 5))
 	for i := 0; i < nOps; i++ {
@@ -526,7 +537,7 @@ func buildIT(j jIT, gate bool) *cloudprovider.InstanceType {
 	}
 	res := rl(int64(j.CPU)*1000, int64(j.CPU)*2048, 20)
 	if j.Huge {
-		res["hugepages-2Mi"] = *resource.NewQuantity(int64(j.CPU)*512<<20, resource.BinarySI) // allocatable memory is reduced by it
+		res["hugepages-2Mi"] = *resource.NewQuantity(int64(j.CPU)*lo.Ternary[int64](j.HugeBig, 4096, 512)<<20, resource.BinarySI) // allocatable memory is reduced by it (floored at 0)
 	}
 	return fake.NewInstanceType(j.Name, fake.WithResources(res), fake.WithOfferings(ofs...))
 }
@@ -607,6 +618,22 @@ func (w *world) buildPod(p jPod, nodeName string) *corev1.Pod {
 		pod = test.UnschedulablePod(o)
 	}
 	// what the fixture options cannot express
+	if p.Extras {
+		pod.Spec.Volumes = append(pod.Spec.Volumes, corev1.Volume{Name: "scratch", VolumeSource: corev1.VolumeSource{EmptyDir: &corev1.EmptyDirVolumeSource{}}})
+		pod.Spec.Containers[0].Ports = append(pod.Spec.Containers[0].Ports, corev1.ContainerPort{ContainerPort: 8443, Protocol: corev1.ProtocolTCP})
+	}
+	if a := pod.Spec.Affinity; a != nil { // a second, differently weighted preference: relaxation sorts before it removes
+		if a.NodeAffinity != nil && len(a.NodeAffinity.PreferredDuringSchedulingIgnoredDuringExecution) == 1 {
+			t := a.NodeAffinity.PreferredDuringSchedulingIgnoredDuringExecution[0].DeepCopy()
+			t.Weight, t.Preference.MatchExpressions[0].Values = t.Weight+7, []string{"test-zone-2"}
+			a.NodeAffinity.PreferredDuringSchedulingIgnoredDuringExecution = append(a.NodeAffinity.PreferredDuringSchedulingIgnoredDuringExecution, *t)
+		}
+		if a.PodAntiAffinity != nil && len(a.PodAntiAffinity.PreferredDuringSchedulingIgnoredDuringExecution) == 1 {
+			t := a.PodAntiAffinity.PreferredDuringSchedulingIgnoredDuringExecution[0].DeepCopy()
+			t.Weight, t.PodAffinityTerm.TopologyKey = t.Weight+7, corev1.LabelHostname
+			a.PodAntiAffinity.PreferredDuringSchedulingIgnoredDuringExecution = append(a.PodAntiAffinity.PreferredDuringSchedulingIgnoredDuringExecution, *t)
+		}
+	}
 	switch p.Owner {
 	case "none":
 		pod.OwnerReferences = nil
@@ -665,6 +692,8 @@ func newWorld(j jWorld) *world {
 		IgnoreDRARequests: ptr(!j.DRA),
 		BatchMaxDuration:  lo.Ternary(j.BatchMax > 0, ptr(time.Duration(j.BatchMax)*time.Second), nil),
 		CPURequests:       lo.Ternary(j.CPUReq > 0, ptr(int64(j.CPUReq)), nil),
+		SchedulerConfig: lo.Ternary(j.DefaultTSC != "", &options.SchedulerConfiguration{PodTopologySpread: &options.PodTopologySpreadConfig{
+			DefaultConstraints: []corev1.TopologySpreadConstraint{{MaxSkew: 1, TopologyKey: corev1.LabelTopologyZone, WhenUnsatisfiable: corev1.UnsatisfiableConstraintAction(j.DefaultTSC)}}}}, nil),
 	}))
 	// catalogue
 	var its []*cloudprovider.InstanceType
@@ -673,6 +702,9 @@ func newWorld(j jWorld) *world {
 	}
 	w.cp.InstanceTypes = its
 
+	if j.DefaultTSC != "" {
+		w.add(&corev1.Service{ObjectMeta: metav1.ObjectMeta{Name: "svc", Namespace: "default"}, Spec: corev1.ServiceSpec{Selector: map[string]string{"app": "c18"}}})
+	}
 	// storage
 	w.add(test.StorageClass(test.StorageClassOptions{ObjectMeta: metav1.ObjectMeta{Name: "sc"}, Zones: []string{"test-zone-1", "test-zone-2"}, Provisioner: ptr("test.driver")}))
 	// a claim bound to a CSI volume pinned to one zone; a claim whose class is gone; a claim with the empty class
@@ -680,6 +712,10 @@ func newWorld(j jWorld) *world {
 	pv.Namespace = "" // cluster scoped
 	w.add(pv)
 	w.add(test.PersistentVolumeClaim(test.PersistentVolumeClaimOptions{ObjectMeta: metav1.ObjectMeta{Name: "pvc-bound", Namespace: "default"}, StorageClassName: ptr("sc"), VolumeName: "pv-bound"}))
+	pvi := test.PersistentVolume(test.PersistentVolumeOptions{ObjectMeta: metav1.ObjectMeta{Name: "pv-intree"}, UseAWSInTreeDriver: true, Zones: []string{"test-zone-2"}, StorageClassName: "sc-intree"})
+	pvi.Namespace = ""
+	w.add(pvi)
+	w.add(test.PersistentVolumeClaim(test.PersistentVolumeClaimOptions{ObjectMeta: metav1.ObjectMeta{Name: "pvc-intree", Namespace: "default"}, StorageClassName: ptr("sc-intree"), VolumeName: "pv-intree"}))
 	w.add(test.PersistentVolumeClaim(test.PersistentVolumeClaimOptions{ObjectMeta: metav1.ObjectMeta{Name: "pvc-nosc", Namespace: "default"}, StorageClassName: ptr("sc-missing")}))
 	w.add(test.PersistentVolumeClaim(test.PersistentVolumeClaimOptions{ObjectMeta: metav1.ObjectMeta{Name: "pvc-emptysc", Namespace: "default"}, StorageClassName: ptr("")}))
 	w.add(test.StorageClass(test.StorageClassOptions{ObjectMeta: metav1.ObjectMeta{Name: "sc-intree"}, Zones: []string{"test-zone-2", "test-zone-3"}, Provisioner: ptr("kubernetes.io/aws-ebs")}))
@@ -787,9 +823,16 @@ func newWorld(j jWorld) *world {
 			w.add(test.ZonedSlice("zoned-"+z, "c18.example", z, "z0", "z1"))
 		}
 	}
+	w.add(test.SharedCapacitySlice("shared", "c18.example", "s0", "8Gi"))
 	claimFor := func(p jPod) {
-		if p.DRA == "claim" {
+		consumer := resourcev1.ResourceClaimConsumerReference{Resource: "pods", Name: p.Name, UID: types.UID("uid-" + p.Name)}
+		switch p.DRA {
+		case "claim":
 			w.add(test.ResourceClaimForRequests("claim-"+p.Name, test.ExactDeviceRequest("dev", "c18-class", 1)))
+		case "allocated-shared":
+			w.add(test.AllocatedSharedClaim("claim-"+p.Name, "shared", "c18.example", "s0", test.CapacityRequest("1Gi"), consumer))
+		case "allocated":
+			w.add(test.AllocatedClusterWideClaim("claim-"+p.Name, "zoned-test-zone-1", "c18.example", "z0", consumer))
 		}
 	}
 	for _, jn := range j.Nodes {
@@ -810,8 +853,8 @@ func newWorld(j jWorld) *world {
 				ObjectMeta:           metav1.ObjectMeta{Labels: map[string]string{"app": "c18"}},
 				ResourceRequirements: corev1.ResourceRequirements{Requests: corev1.ResourceList{corev1.ResourceCPU: resource.MustParse("300m")}},
 				NodePreferences:      []corev1.NodeSelectorRequirement{{Key: corev1.LabelTopologyZone, Operator: corev1.NodeSelectorOpIn, Values: []string{"no-such-zone"}}},
-				TopologySpreadConstraints: []corev1.TopologySpreadConstraint{{MaxSkew: 1, TopologyKey: corev1.LabelTopologyZone, WhenUnsatisfiable: corev1.ScheduleAnyway,
-					LabelSelector: &metav1.LabelSelector{MatchLabels: map[string]string{"app": "c18"}}}},
+				TopologySpreadConstraints: lo.Ternary(j.Buffer == 1, []corev1.TopologySpreadConstraint{{MaxSkew: 1, TopologyKey: corev1.LabelTopologyZone, WhenUnsatisfiable: corev1.ScheduleAnyway,
+					LabelSelector: &metav1.LabelSelector{MatchLabels: map[string]string{"app": "c18"}}}}, nil),
 			}}))
 	}
 	// pending pods
